@@ -361,7 +361,9 @@ class Case:
         for i in range(6):
             C[i, i] = 1.0
         if shape == "zero_row":
-            C[ds.choose(6, "C.zero_row"), :] = 0.0          # that variable maps to 0 (or, with a shift, to a pure constant)
+            # one to three variables map to 0 (or, with a shift, to pure constants): restriction to a slice, evaluation by substitution
+            for z in range(1 + ds.choose(3, "C.zero_rows.count")):
+                C[ds.choose(6, f"C.zero_row[{z}]"), :] = 0.0
         elif shape == "zero_diagonal":
             i = ds.choose(6, "C.zero_diag")
             C[i, i] = 0.0
@@ -379,8 +381,12 @@ class Case:
         self.shifts = None
         if affine:
             sh = np.zeros(6, dtype=C.dtype)
-            for j in range(1 + ds.choose(3, "shift.n")):
+            for j in range(1 + ds.choose(4, "shift.n")):
                 sh[ds.choose(6, f"shift[{j}].i")] = float(SMALL[ds.choose(6, f"shift[{j}].v")])
+            if shape == "zero_row" and ds.flag("shift.on_every_zero_row", 0.6):
+                for i in range(6):
+                    if not C[i].any():
+                        sh[i] = float(SMALL[(i + 2) % 6])
             self.shifts = sh
         self.desc.update(max_deg=self.max_deg, C_complex=bool(np.iscomplexobj(C)))
 
